@@ -219,6 +219,7 @@ def classify(body, event):
     if 0 in carriers:
         site.fates.append(("propagated", "returned", event.bb))
     used = False
+    weak = []
     # statement uses
     for bb, j, s in body.all_assigns():
         rv = s["rv"]
@@ -256,6 +257,11 @@ def classify(body, event):
             elif PANIC_METHODS.search(decl):
                 used = True
                 site.fates.append(("panicked", decl.split("::")[-1], e.bb))
+            elif decl in ("std::result::Result::<T, E>::is_ok", "std::result::Result::<T, E>::is_err"):
+                # a test by reference: the value lives on, and what happens to it afterwards decides; only if
+                # nothing else does is the error swallowed by the test
+                used = True
+                weak.append(("swallowed", decl.split("::")[-1], e.bb))
             elif SWALLOW_METHODS.search(decl):
                 used = True
                 site.fates.append(("swallowed", decl.split("::")[-1], e.bb))
@@ -316,6 +322,8 @@ def classify(body, event):
                 loops = event.bb in reach and event.bb not in stop
                 if (exits or loops) and err_t not in stop:
                     site.fates.append(("swallowed", "an Err path neither reports nor propagates the error", sb))
+    if not site.fates and weak:
+        site.fates.extend(weak)
     if not used and not site.fates:
         site.fates.append(("swallowed", "unused", event.bb))
     return site
